@@ -207,12 +207,15 @@ impl ErrorHandler for HandlerCb {
 struct ExtCb {
     log: Log,
     lines: Rc<Cell<usize>>,
+    /// "ext" for bindings made by the host configuration, "ext-rebound" for those made by Op::Bind
+    label: &'static str,
 }
 impl ExternalFunction for ExtCb {
     fn call(&mut self, func_name: &str, args: Vec<ValueType>) -> Option<ValueType> {
         let shown: Vec<String> = args.iter().map(show_value).collect();
         self.log.borrow_mut().push(format!(
-            "ext {}({}) lines={}",
+            "{} {}({}) lines={}",
+            self.label,
             func_name,
             shown.join(","),
             self.lines.get()
@@ -293,6 +296,7 @@ impl Player {
             let f = Rc::new(RefCell::new(ExtCb {
                 log: self.log.clone(),
                 lines: self.lines.clone(),
+                label: "ext",
             }));
             let _ = self.story.bind_external_function(name, f, *safe);
         }
@@ -405,6 +409,9 @@ impl Player {
             },
             Op::Reset => {
                 let r = self.story.reset_state();
+                if r.is_ok() {
+                    self.lines.set(0);
+                }
                 if r.is_ok()
                     && let Some(s) = self.cfg.seed
                 {
@@ -434,6 +441,7 @@ impl Player {
                 let f = Rc::new(RefCell::new(ExtCb {
                     log: self.log.clone(),
                     lines: self.lines.clone(),
+                    label: "ext-rebound",
                 }));
                 Self::wrap(self.story.bind_external_function(n, f, *safe), |_| String::new())
             }
